@@ -12,7 +12,7 @@ from cgsim import gen as G, ref
 from cgsim.core import fp, Skip, state_digest
 
 ID = "C06"
-QUICK = dict(worlds=16, runs=500, seconds=25)
+QUICK = dict(worlds=16, runs=500, seconds=15)
 THOROUGH = dict(worlds=256, runs=4000, seconds=30)
 RULE = ("seeded composition histories (<= 8 composition calls) on a generated parent with 1-3 generated children; "
         "distinct = parent + children + op list; non-trivial = at least two successful composition calls and one "
